@@ -31,6 +31,14 @@ And two more (same reason):
     file without any complete record (0 bytes, a compressed stream of 0 bytes, the beginning of a first record) and a
     file holding the first k complete records of a log of the same experiment.  The Result of the run, the Result without
     a file and ``Result.from_file`` must be identical for these too.
+
+And three more (behaviours of the unchanged tree that were noted while reading the code and lie inside the statement):
+  * a learner that calls its family 'vw' without reporting 'args' / 'seed' (any params dictionary is in the quantifier):
+    ``Experiment.run`` must return a Result;
+  * field names that are equal after str(): one field spelled 1 in some rows and '1' in others (no ambiguity at all: both
+    are the column '1'), or both spellings in one row (the cell may then hold either value, the statement does not say
+    which -- but the triple still has its N rows, numbered 1..N, and its other fields);
+  * a triple whose rows have no field at all: N rows were yielded, so N rows numbered 1..N are expected.
 """
 import os, re, math, json, shutil, tempfile, traceback
 from itertools import product
@@ -43,7 +51,7 @@ RULE  = ("seeded experiments (1-3 environments x 1-2 learners x 1-2 evaluators, 
          "two-stage restored run on each of these files, and on each of these files after it was put into a generated state before the run "
          "(0 bytes / compressed stream of 0 bytes / beginning of a first record / first k complete records of a log of the same experiment); one oracle evaluation group = one triple's row "
          "list (or one params table); distinct & non-trivial = distinct row-shape signature (row-count class, ragged / late / "
-         "absent-in-first-row keys, non-string keys, special column names, set of top-level cell kinds, nesting, columns mixing "
+         "absent-in-first-row keys, non-string keys, field names equal after str() within a row / across rows, special column names, set of top-level cell kinds, nesting, columns mixing "
          "sequence and non-sequence cells) on a triple with at least one non-empty row")
 PLAN  = {"quick":    {"shards": 16, "cases": 1600,  "timeout": 600,  "budget_s": 90},
          "thorough": {"shards": 16, "cases": 24000, "timeout": 3000, "budget_s": 900}}
@@ -59,17 +67,21 @@ REQUIRED = ["oracle.interactions.triples", "oracle.interactions.rows", "oracle.i
             "cells.nested-list.params", "cells.nested-list.rows",
             "oracle.identical.existing-file.empty", "oracle.identical.existing-file.empty-compressed-stream",
             "oracle.identical.existing-file.partial-first-record", "oracle.identical.existing-file.record-prefix",
-            "existing.record-prefix-left-work-pending"]
+            "existing.record-prefix-left-work-pending",
+            "params.learner-family-vw-without-args-or-seed", "params.learner-family-vw-with-args-and-seed",
+            "shape.field-names-collide-after-str.within-row", "shape.field-names-collide-after-str.across-rows",
+            "shape.rows-without-any-field"]
 ASSUMPTIONS = [
-    "field names never collide after str() nor as python dict keys; params are named by str, int or non-integral float (typed Mapping[str,Any]); row fields also by bool, None or tuples, all expected back as str(name)",
-    "the id column names (environment_id, learner_id, evaluator_id, index), 'eval_type' and the learner family 'vw' are not generated as field names/values",
+    "names of params never collide after str() nor as python dict keys; params are named by str, int or non-integral float (typed Mapping[str,Any]); row fields also by bool, None or tuples, all expected back as str(name)",
+    "row field names that are equal after str() (1 and '1') ARE generated: spelled differently in different rows (unambiguous) or both in one row -- the cell may then hold either of the two values (the statement does not say which), everything else about the triple is asserted as usual",
+    "the id column names (environment_id, learner_id, evaluator_id, index) and 'eval_type' are not generated as field names (a table has one column per name: the statement cannot be met either way); a learner family 'vw' IS generated, with and without 'args' / 'seed' params",
     "plain dicts keyed by a registered class name (L1, HR, BR, DR, zip) ARE generated as data and are expected back as the dicts they are (the statement lists no normalisation that turns data into objects)",
     "result file paths are absolute, inside a fresh temporary directory; whether a written file is gzip-compressed is read from its magic bytes",
     "reward objects are compared by type and by behaviour on probe actions (HammingReward has no __eq__); their own parameters are finite",
     "a column named 'rewards' may read top-level sequences back as list or tuple (coba's explicit exception); below the top level a produced list must be read back as a list, a produced tuple as list or tuple",
     "a result file that exists before the run holds either no complete record at all or complete records that a run of the same experiment (same seed) wrote; such a run must give the Result of a run without a file",
     "the env_type / family / eval_type columns that coba's Safe* wrappers add are accepted and only compared across the Results",
-    "a triple whose evaluator yields only rows without any field is not asserted (a row count cannot be represented); Missing is read as None",
+    "a triple whose evaluator yields only rows without any field is expected back as that many rows numbered 1..N (no field to compare); Missing is read as None",
     "environment/learner/evaluator ids are the order of first appearance in the triple list",
     "floats: |read - yielded| <= 0.5e-5 (+4 ulp for |x| > 1e10) and the read value has at most 5 decimals; integral floats may read back as int",
 ]
@@ -241,16 +253,31 @@ def gen_rows(rng):
     """the rows one evaluator yields for one (environment, learner): list of [[key, value], ...] (ordered items)"""
     n = rng.choice([0, 1, 1, 2, 2, 3, 3, 4, 5, 8])
     if n == 0: return []
+    if rng.random() < .03: return [[] for _ in range(n)]       # an evaluator that has nothing to say about its n interactions
     ncol  = rng.choice([1, 1, 2, 3, 3, 4, 5, 6])
     names = gen_field_names(rng, ncol, rows=True)
     if rng.random() < .04: names = [rng.choice(TAG_NAMES)]     # the whole record of the triple is then a one-key dict
+    # field names that are equal after str(): a non-string name and its str() -- as two fields of the same rows, or as two
+    # spellings of one field (each row uses one of them)
+    twin, respell = None, None
+    if n >= 2 and rng.random() < .12:
+        nonstr = [k for k in names if not isinstance(k, str)]
+        if not nonstr and len(names) < 6:
+            k = rng.choice([1, 2, 7, 1.5, None, True, {"T": [1, 2]}])
+            if not any(str(build(k)) == str(build(u)) or build(k) == build(u) for u in names): names.append(k); nonstr = [k]
+        if nonstr:
+            k = rng.choice(nonstr)
+            if rng.random() < .4: twin = (k, str(build(k)))
+            else: respell = (k, str(build(k)), rng.randrange(n), rng.randrange(n))
     cols  = []
     for k in names:
         ck = rng.choice(COLKINDS)
         if k == "rewards" and rng.random() < .6: ck = "seq"
         r = rng.random()
         presence = "all" if r < .5 else "ragged" if r < .8 else "late" if r < .9 else "early"
+        if (twin and twin[0] == k) or (respell and respell[0] == k): presence = "all" if r < .7 else "ragged"
         cols.append((k, ck, presence, rng.randrange(n)))
+        if twin and twin[0] == k: cols.append((twin[1], rng.choice([ck, "scalar", "str"]), "all" if rng.random() < .6 else "ragged", 0))
     rows = []
     for i in range(n):
         items = []
@@ -259,9 +286,25 @@ def gen_rows(rng):
         for k, ck, presence, pivot in order:
             here = (presence == "all" or (presence == "ragged" and rng.random() < .6)
                     or (presence == "late" and i >= pivot) or (presence == "early" and i <= pivot))
+            if here and respell and respell[0] == k and (i == respell[2] or (i != respell[3] and rng.random() < .5)): k = respell[1]
             if here: items.append([k, gen_cell(rng, ck)])
         rows.append(items)
     return rows
+
+def collide_class(rows):
+    """do field names of a triple's rows fall together after str()?  'within-row': some row holds two such fields;
+    'across-rows': only different rows do (one field, spelled differently); '': no"""
+    allk = {}
+    within = False
+    for items in rows:
+        seen = {}
+        for k, _ in items:
+            bk = build(k); sk = str(bk)
+            if sk in seen and not (seen[sk] == bk and type(seen[sk]) is type(bk)): within = True
+            seen[sk] = bk
+            allk.setdefault(sk, set()).add((type(bk).__name__, repr(bk)))
+    if within: return "within-row"
+    return "across-rows" if any(len(v) > 1 for v in allk.values()) else ""
 
 def gen_config_value(rng):
     """values of the shapes that real components report as params (layer lists, grids, option dicts): containers that
@@ -275,13 +318,20 @@ def gen_config_value(rng):
     if r < .90: return {"D": [["deep", {"D": [["k", seq([seq(leafs())])]]}], ["lr", seq(leafs())]]}
     return seq([seq([seq(leafs())]), rng.choice([0, "a", None])])
 
-def gen_params(rng, extra_reserved=(), allow=("family",)):
+def gen_params(rng, extra_reserved=(), allow=("family",), vw=False):
     n = rng.choice([0, 1, 1, 2, 2, 3, 4])
     names = gen_field_names(rng, n, extra_reserved)
     if rng.random() < .04: names = [rng.choice(TAG_NAMES)]
     items = [[k, gen_config_value(rng) if rng.random() < .12 else gen_value(rng, 0, allow_reward=rng.random() < .3)] for k in names]
     for special in allow:
         if rng.random() < .15: items.append([special, rng.choice(["mine", "é\n", 3, 1.5, None])])
+    if vw and rng.random() < .08:
+        # a learner that calls its family 'vw'; coba's own vw learners also report 'args' and 'seed', others need not
+        have = rng.choice(["none", "none", "args", "seed", "both", "both"])
+        items = [it for it in items if it[0] not in ("family", "args", "seed")] + [["family", "vw"]]
+        if have in ("args", "both"): items.append(["args", rng.choice(["--cb_explore_adf --epsilon 0.1", "", "é --x 1"])])
+        if have in ("seed", "both"): items.append(["seed", rng.choice([1, 7, None])])
+        rng.shuffle(items)
     return items
 
 # other legal names for the result file.  coba chooses between plain text and gzip from the name, in more than one place
@@ -326,7 +376,7 @@ def gen_case(rng):
         triples = cross
     triples = [list(t) for t in triples]
     envs = [{"params": gen_params(rng, allow=("env_type",)), "style": rng.choice(["fresh", "stored"])} for _ in range(ne)]
-    lrns = [{"params": gen_params(rng, allow=("family",)),   "style": rng.choice(["fresh", "stored"])} for _ in range(nl)]
+    lrns = [{"params": gen_params(rng, allow=("family",), vw=True), "style": rng.choice(["fresh", "stored"])} for _ in range(nl)]
     vals = []
     for v in range(nv):
         style = rng.choice(["generator", "generator", "list", "function"])
@@ -595,7 +645,7 @@ def triple_shape(rows):
     mixedseq = sorted({(cs["first"],) + tuple(cs["others"]) for cs in (column_shape(rows, k) for k in keys) if cs["mixed"]})
     emptyrow = 0 in sizes
     tagged   = ("sole-field" if len(keys) == 1 and keys[0] in TAG_NAMES else "value" if any(_has_tagged(v) for items in rows for _, v in items) else "")
-    return (nclass, ragged, late, emptyrow, tuple(nonstr), tuple(special), tuple(topkinds), min(nesting, 3), tuple(mixedseq), tagged), True
+    return (nclass, ragged, late, emptyrow, tuple(nonstr), tuple(special), tuple(topkinds), min(nesting, 3), tuple(mixedseq), tagged, collide_class(rows)), True
 
 def _innermost_coba_frame(exc):
     tb = traceback.extract_tb(exc.__traceback__)
@@ -610,6 +660,8 @@ def raise_signature(spec, exc, data_flags=True):
     fn = _innermost_coba_frame(exc)
     sig = f"raise:{type(exc).__name__}@{fn}"
     if not data_flags: return sig
+    if isinstance(exc, KeyError) and fn == "__init__" and vw_learners(spec)[2]:
+        return sig + VW_FLAG
     if fn in ("packed_list2tuple", "<dictcomp>", "filter") and isinstance(exc, TypeError):
         # the first column (triples in id order, fields in str order) that starts with a sequence cell and holds a non-sequence one
         for e, l, v in sorted(map(tuple, spec["triples"])):
@@ -627,6 +679,19 @@ def raise_signature(spec, exc, data_flags=True):
     if fn in ("__setstate__", "__repr__", "loads_registered", "list2tuple", "packed_list2tuple", "<dictcomp>", "filter") and spec_has_tagged_dict(spec):
         return sig + "/data-holds-plain-dict-keyed-by-registered-name"
     return sig
+
+VW_FLAG = "/learner-family=vw-without-args-or-seed"
+def vw_learners(spec):
+    """(learners of the experiment that call their family 'vw' while 'args' or 'seed' is no column of the learners table,
+        learners that call their family 'vw' and report both, learners that call their family 'vw' and do not report both)"""
+    used = {l for _, l, _ in spec["triples"]}
+    names = [{build(k) for k, _ in spec["lrns"][l]["params"]} for l in sorted(used)]
+    cols = set().union(*names) if names else set()
+    vw = [nm for l, nm in zip(sorted(used), names) if any(build(k) == "family" and v == "vw" for k, v in spec["lrns"][l]["params"])]
+    bare = sum(1 for nm in vw if not {"args", "seed"} <= cols)
+    full = sum(1 for nm in vw if {"args", "seed"} <= nm)
+    own  = sum(1 for nm in vw if not {"args", "seed"} <= nm)     # (in stage 1 of a restored run the other learners may not be recorded)
+    return bare, full, own
 
 def _has_tagged(s):
     if isinstance(s, dict):
@@ -745,23 +810,18 @@ def check_against_model(spec, res, viol, ctx, cnt):
     for e, l, v in spec["triples"]:
         expected[(em[e], lm[l], vm[v])] = spec["vals"][v]["rows"][f"{e},{l}"]
 
-    for tid, rows in sorted(expected.items()):
-        shape, nontrivial = triple_shape(rows)
-        if ctx: ctx.case(("rows", shape), nontrivial=nontrivial)
-        grows = got.pop(tid, [])
-        if rows and not nontrivial:
-            note("skipped.rows-without-any-field"); continue       # N rows without a single field: not representable, not asserted
+    def check_triple(tid, rows, grows, fieldless, out):
         note("oracle.interactions.triples")
         if len(grows) != len(rows):
             names = {str(build(k)) for items in rows for k, _ in items}
             sole = "/sole-field-named-like-registered-class" if len(names) == 1 and next(iter(names)) in TAG_NAMES else ""
-            viol.append((f"interactions/row-count/{'lost' if len(grows) < len(rows) else 'extra'}-rows{sole}",
-                         f"triple {tid}: evaluator yielded {len(rows)} rows, table has {len(grows)}")); continue
-        if not rows: continue
+            out.append((f"interactions/row-count/{'lost' if len(grows) < len(rows) else 'extra'}-rows{sole}{fieldless}",
+                         f"triple {tid}: evaluator yielded {len(rows)} rows, table has {len(grows)}")); return
+        if not rows: return
         note("oracle.index-1..N")
         idx = [g["index"] for g in grows]
         if idx != list(range(1, len(rows) + 1)) or any(type(i) is not int for i in idx):
-            viol.append(("interactions/index-not-1..N", f"triple {tid}: index column reads {idx} for {len(rows)} rows")); continue
+            out.append(("interactions/index-not-1..N", f"triple {tid}: index column reads {idx} for {len(rows)} rows")); return
         keys = sorted({str(build(k)) for items in rows for k, _ in items})
         if len(keys) == 1 and keys[0] in TAG_NAMES: note("shape.sole-field-named-like-registered-class")
         shapes = {k: column_shape(rows, k) for k in keys}
@@ -772,33 +832,60 @@ def check_against_model(spec, res, viol, ctx, cnt):
         for i, (items, g) in enumerate(zip(rows, grows)):
             note("oracle.interactions.rows")
             produced = {build(k): build(v) for k, v in items}
-            want = {}
+            want = {}                            # column -> the values the row holds under a name that reads so (nearly always one)
             for k, v in produced.items():
                 if not isinstance(k, str): cnt["cells.nonstring-field-name"] = cnt.get("cells.nonstring-field-name", 0) + 1
-                want[str(k)] = v
+                want.setdefault(str(k), []).append(v)
             for k in keys:
                 note("oracle.interactions.cells")
                 cs = shapes[k]
                 colflag = f"/column-mixes-seq-and-nonseq-cells/first-cell={'seq' if cs['first'] == 'seq' else 'nonseq'}" if cs["mixed"] else ""
                 if k not in g:
                     kk = "str" if any(isinstance(pk, str) and pk == k for pk in produced) or k not in want else "nonstring"
-                    viol.append((f"interactions/field-missing/field-name={kk}", f"triple {tid} row {i+1}: field {k!r} is not a column (columns {cols})")); bad = True; break
+                    out.append((f"interactions/field-missing/field-name={kk}", f"triple {tid} row {i+1}: field {k!r} is not a column (columns {cols})")); bad = True; break
                 if k in want:
-                    r = norm_match(want[k], g[k], 0, k, cnt)
+                    # two fields of the row under one name: the statement does not say which one the cell holds
+                    rs = [norm_match(o, g[k], 0, k, cnt) for o in want[k]]
+                    # (when the cell is one of them up to a difference that has its own signature, that difference is what is reported)
+                    r = None if None in rs else next((x for x in rs if x[0].startswith("reward-object/read-back-as=dict")), rs[0])
                     if r:
                         # the make-up of the column only belongs to the mechanism when the cell itself (not its content) is wrong
                         flag = colflag if len(r) == 2 and (cs["first"] == "seq" or r[0].startswith("top-level-seq")) and not r[0].startswith("reward-object/read-back-as=dict") else ""
-                        viol.append((f"interactions/{r[0]}{flag}", f"triple {tid} row {i+1} field {k!r}: {r[1]}; column cells {cs['kinds']}")); bad = True; break
+                        out.append((f"interactions/{r[0]}{flag}", f"triple {tid} row {i+1} field {k!r}: {r[1]}; column cells {cs['kinds']}")); bad = True; break
                 else:
                     cnt["cells.absent"] = cnt.get("cells.absent", 0) + 1
                     if not _is_missing(g[k]):
-                        viol.append((f"interactions/absent-field-not-None{colflag}", f"triple {tid} row {i+1}: absent field {k!r} reads {_safe_repr(g[k])}")); bad = True; break
+                        out.append((f"interactions/absent-field-not-None{colflag}", f"triple {tid} row {i+1}: absent field {k!r} reads {_safe_repr(g[k])}")); bad = True; break
             if bad: break
             for k, val in g.items():            # fields of other triples must be empty here
                 if k in ID_COLS or k in want or k in keys: continue
                 if not _is_missing(val):
-                    viol.append(("interactions/field-invented", f"triple {tid} row {i+1}: column {k!r} holds {_safe_repr(val)}, the row has no such field")); bad = True; break
+                    out.append(("interactions/field-invented", f"triple {tid} row {i+1}: column {k!r} holds {_safe_repr(val)}, the row has no such field")); bad = True; break
             if bad: break
+
+    # (the packed columns of one triple are appended to the columns of the whole table: columns of unequal length move
+    #  the rows of every triple that is inserted later)
+    elsewhere = next((c for c in (collide_class(rows) for _, rows in sorted(expected.items())) if c), "")
+    for tid, rows in sorted(expected.items()):
+        shape, nontrivial = triple_shape(rows)
+        if ctx: ctx.case(("rows", shape), nontrivial=nontrivial)
+        grows = got.pop(tid, [])
+        fieldless = "/rows-without-any-field" if rows and not nontrivial else ""
+        if fieldless: note("shape.rows-without-any-field")       # N rows were yielded: N rows numbered 1..N are expected
+        collide = collide_class(rows)
+        if collide: note(f"shape.field-names-collide-after-str.{collide}")
+        mine = []
+        check_triple(tid, rows, grows, fieldless, mine)
+        for sig, what in mine:
+            # field names that fall together after str(): one mechanism (cells of two fields packed into one column), many
+            # faces (rows too many, cells of this and of other columns moved to other rows) -- one signature per face
+            if "reward-object/read-back-as=dict" in sig: pass
+            elif collide:
+                face = "row-count" if sig.startswith("interactions/row-count") else "index-not-1..N" if "index-not" in sig else "cell-of-another-row-or-lost"
+                sig = f"interactions/field-names-collide-after-str={collide}/{face}"
+            elif elsewhere and not fieldless:
+                sig = f"interactions/field-names-collide-after-str={elsewhere}/rows-of-another-triple-of-the-table"
+            viol.append((sig, what))
     for tid, grows in got.items():
         viol.append(("interactions/rows-for-unknown-triple", f"table holds {len(grows)} rows for triple {tid} which is not in the experiment"))
 
@@ -816,6 +903,9 @@ def check_case(spec, ctx=None):
             return _run(exp, path, sink), sink
 
         # ---------------------------------------------------------------- (1) no file vs the statement
+        bare, full, _ = vw_learners(spec)
+        if bare: note("params.learner-family-vw-without-args-or-seed")
+        if full: note("params.learner-family-vw-with-args-and-seed")
         try:
             r0, sink = run(None)
         except Exception as e:
@@ -855,7 +945,10 @@ def check_case(spec, ctx=None):
                         r, sink = run(path)
                     f = Result.from_file(path)
                 except Exception as e:
-                    viol.append((f"run/{sigl}/" + raise_signature(spec, e), f"{label} {fname!r}: raised {type(e).__name__}: {e}")); continue
+                    rs = raise_signature(spec, e)
+                    # (which file it is does not belong to the mechanism when the learners table itself cannot be made)
+                    where = ("restored" if restored else "with-file") if rs.endswith(VW_FLAG) else sigl
+                    viol.append((f"run/{where}/" + rs, f"{label} {fname!r}: raised {type(e).__name__}: {e}")); continue
                 for name, text in _logged_exceptions(sink):
                     viol.append((f"run/{sigl}/logged-exception:{name}", f"{label} {fname!r}: Experiment.run logged an exception although no component failed: {text}"))
                 d = results_identical(r0, r)
@@ -941,11 +1034,12 @@ def run_shard(ctx):
         if not ctx.samples and len(rows0) >= 2:
             ctx.sample({"triples": spec["triples"], "env0_params": spec["envs"][0]["params"], "rows_of_first_triple": rows0[:3],
                         "fail_in_stage_1": spec["fail"]})
-        for sig, what in v: ctx.violation(sig, what, spec)
+        # (the harness turns whatever lies deeper than 12 levels into its repr: deeply nested cells would not replay)
+        for sig, what in v: ctx.violation(sig, what, {"spec_json": json.dumps(spec)})
         i += 1
     ctx.count("experiments", i)
     if i < ctx.n: ctx.extra["experiments_skipped_for_time"] = ctx.n - i
 
 def replay(witness):
     import warnings; warnings.simplefilter("ignore")
-    return check_case(witness)
+    return check_case(json.loads(witness["spec_json"]) if "spec_json" in witness else witness)
